@@ -279,6 +279,7 @@ func checkC12(w *World, r *Report) {
 	c12ExplicitStatus(w, r, "C12.8")
 	c12Challenge(w, r)
 	c12PlainMediaType(w, r)
+	c12ProxyErrorReachesFinalize(w, r)
 }
 
 var expectedOrder = []string{"ErrAuthentication", "ErrAuthorization", "ErrCommunicationTimeout|ErrCommunication", "ErrArgument", "ErrNoRuleFound", "&RedirectError"}
@@ -1052,5 +1053,124 @@ func c12PlainMediaType(w *World, r *Report) {
 	}
 	if n == 0 {
 		r.Undecided(ri, "no plain-text rendering with a table media type found")
+	}
+}
+
+// c12ProxyErrorReachesFinalize (C12.9): in proxy mode the failure of the upstream exchange is
+// reported to the ReverseProxy's ErrorHandler; Finalize returns what that handler recorded. Both
+// must address the same storage - a holder handed to a helper by value is a different variable,
+// and Finalize then answers an unreachable upstream with success.
+func c12ProxyErrorReachesFinalize(w *World, r *Report) {
+	ri := r.Rule("C12.9", 1, "the error recorded by the reverse proxy's error handler is stored in the very variable whose content the proxy's Finalize returns (same allocation, or handed on by pointer)")
+	n := 0
+	for _, fn := range w.Funcs {
+		if w.isMockFn(fn) || !strings.HasSuffix(fnPkgPath(fn), "/internal/handler/proxy") {
+			continue
+		}
+		eachInstr(fn, func(in ssa.Instruction) {
+			st, ok := in.(*ssa.Store)
+			if !ok {
+				return
+			}
+			fa, ok := st.Addr.(*ssa.FieldAddr)
+			if !ok {
+				return
+			}
+			f := fieldOf(fa.X.Type(), fa.Field)
+			if f == nil || f.Name() != "ErrorHandler" || !strings.HasSuffix(derefType(fa.X.Type()).String(), "httputil.ReverseProxy") {
+				return
+			}
+			mc, ok := st.Val.(*ssa.MakeClosure)
+			if !ok {
+				return
+			}
+			handler := mc.Fn.(*ssa.Function)
+			n++
+			r.Analysed(w.FnName(handler))
+			// the storage the handler writes the error to: a store through a captured variable
+			var holder ssa.Value
+			eachInstr(handler, func(hin ssa.Instruction) {
+				hst, ok := hin.(*ssa.Store)
+				if !ok || !isErrorLike(hst.Val.Type()) {
+					return
+				}
+				// accessPath resolves a captured variable to what the closure was bound to
+				root, p := accessPath(hst.Addr)
+				if fv, ok := root.(*ssa.FreeVar); ok {
+					for i, v := range handler.FreeVars {
+						if v == fv && i < len(mc.Bindings) {
+							holder = mc.Bindings[i]
+						}
+					}
+				} else if root != nil && len(p) > 0 && root.Parent() != handler {
+					holder = root
+				}
+			})
+			if holder == nil {
+				r.Ob(ri, w.FnName(fn)+"|error-handler-records", st.Pos(), false, "the reverse proxy's error handler does not record the error in a captured variable")
+				return
+			}
+			// Finalize of the same type
+			var fin *ssa.Function
+			if fn.Signature.Recv() != nil {
+				if t := derefNamed(fn.Signature.Recv().Type()); t != nil {
+					fin = w.Method(t, "Finalize")
+				}
+			}
+			if fin == nil {
+				r.Undecided(ri, "Finalize of the proxy request context not found")
+				return
+			}
+			// what Finalize returns once the proxy has served: loads of an error field of a local holder
+			finRoots := map[ssa.Value]bool{}
+			for _, ret := range returnsOf(fin) {
+				for _, o := range w.Origins(ret.Results[len(ret.Results)-1], nil) {
+					if ld, ok := o.(*ssa.UnOp); ok {
+						if root, p := accessPath(ld.X); root != nil && len(p) > 0 {
+							if _, isAlloc := root.(*ssa.Alloc); isAlloc {
+								finRoots[root] = true
+							}
+						}
+					}
+				}
+			}
+			hroot, _ := accessPath(holder)
+			ok2, why := false, ""
+			switch {
+			case fn == fin:
+				ok2 = finRoots[hroot]
+				why = "the handler records the error in another variable than the one Finalize returns"
+			default:
+				// the handler lives in a helper: the holder must be a pointer parameter that receives the
+				// address of Finalize's variable
+				pa, isParam := hroot.(*ssa.Parameter)
+				if !isParam {
+					why = "the helper creating the reverse proxy records the error in its own copy of the holder (handed over by value): Finalize never sees it and answers a failed upstream exchange with success"
+					break
+				}
+				if _, isPtr := pa.Type().Underlying().(*types.Pointer); !isPtr {
+					why = "the holder is handed to the helper by value"
+					break
+				}
+				for _, e := range w.CG().In[fn] {
+					ci, isCall := e.Site.(ssa.CallInstruction)
+					if !isCall || e.Caller != fin {
+						continue
+					}
+					for i, q := range fn.Params {
+						if q == pa && i < len(ci.Common().Args) {
+							if root, _ := accessPath(ci.Common().Args[i]); finRoots[root] || finRoots[ci.Common().Args[i]] {
+								ok2 = true
+							}
+						}
+					}
+				}
+				why = "the pointer handed to the helper is not the address of the variable Finalize returns"
+			}
+			r.Ob(ri, w.FnName(fn)+"|error-handler-and-finalize-share-storage", st.Pos(), ok2, why)
+		})
+	}
+	if n == 0 {
+		r.Undecided(ri, "no ReverseProxy with an ErrorHandler found in the proxy handler")
 	}
 }
